@@ -172,6 +172,18 @@ MCPollNext ==
         /\ LayoutSame /\ UNCHANGED <<fill, fresh>>
         /\ Record([op |-> "poll_next", who |-> k, p |-> p, n |-> n, auto |-> auto])
 
+(* auto-commit is a property of every poll, not only of 'next': a poll by offset with auto-commit stores the offset of the *)
+(* last message it returned - also when that is BELOW the stored one (a consumer that re-reads moves its offset back)     *)
+MCPollAuto ==
+    /\ "poll_auto" \in Ops
+    /\ \E p \in P : \E k \in KeySet : \E o \in 0..(Len(log[p]) - 1) : \E n \in {1, 2} :
+        /\ k \in groups \/ k \notin GroupKeys
+        /\ \E r \in Slices(log[p], LoSet(lo[p], cacheLo[p]), o, n) :
+             /\ Len(r) > 0
+             /\ PollNext(p, k, r, TRUE)
+        /\ LayoutSame /\ UNCHANGED <<fill, fresh>>
+        /\ Record([op |-> "poll_auto", who |-> k, p |-> p, o |-> o, n |-> n])
+
 MCGroup ==
     /\ "group" \in Ops
     /\ \E k \in GroupKeys :
@@ -181,7 +193,7 @@ MCGroup ==
 
 MCNext ==
     \/ MCSend \/ MCFlush \/ MCBgSave \/ MCRestart \/ MCPurge \/ MCTick \/ MCSetExpiry
-    \/ MCRetention \/ MCStore \/ MCDeleteOffset \/ MCPollNext \/ MCGroup
+    \/ MCRetention \/ MCStore \/ MCDeleteOffset \/ MCPollNext \/ MCPollAuto \/ MCGroup
 
 Bounded == Len(hist) <= MaxOps
 
